@@ -1153,7 +1153,7 @@ func buildFnCallers(w *World) {
 	if len(fnCallers) > 0 {
 		return
 	}
-	for g := range allModuleFuncs(w, w.SSA()) {
+	for _, g := range sortedModuleFuncs(w, w.SSA()) {
 		seen := map[*ssa.Function]bool{}
 		for _, c := range callsIn(g) {
 			if sc := c.Common().StaticCallee(); sc != nil && !seen[sc] {
